@@ -329,8 +329,6 @@ impl Selector {
     #[inline]
     #[cfg(feature = "io_timeout")]
     pub fn add_io_timer(&self, io: &IoData, timeout: Duration) {
-        // a new timer: forget that an earlier one fired
-        io.timer_fired.store(false, std::sync::atomic::Ordering::SeqCst);
         let id = io.fd as usize % self.vec.len();
         // info!("io timeout = {:?}", dur);
         let (h, b_new) = self.vec[id].timer_list.add_timer(timeout, io.timer_data());
